@@ -14,15 +14,17 @@ theorem grantsL_append_notGranted (ws : List Waiter) (w : Waiter) (h : w.st ≠ 
   simp [grantsL, List.countP_append, h]
 
 theorem tame_of_semEq (p q : Pool) (hv : q.sem.value = p.sem.value)
-    (hg : grantsL q.sem.waiters = grantsL p.sem.waiters) (ht : q.tasks = p.tasks) : Tame p q := by
-  refine ⟨hv, hg, by rw [ht], ?_⟩
+    (hg : grantsL q.sem.waiters = grantsL p.sem.waiters) (ht : q.tasks = p.tasks)
+    (h1 : q.running = p.running := by rfl) (h2 : q.cancelledR = p.cancelledR := by rfl)
+    (h3 : q.ended = p.ended := by rfl) (h4 : q.lost = p.lost := by rfl) : Tame p q := by
+  refine ⟨hv, hg, by rw [ht], h1, h2, h3, h4, ?_⟩
   intro t tk' h; rw [ht] at h; exact ⟨tk', h, rfl, Or.inl rfl⟩
 
 /-- queueing behind the pool semaphore moves no slot -/
 theorem tame_waitRoom (p : Pool) (m) : Tame p (p.waitRoom m) := by
   unfold waitRoom
   simp only
-  split <;> apply tame_of_semEq <;> simp_all [grantsL, List.countP_append, schedMeta]
+  split <;> refine tame_of_semEq _ _ ?_ ?_ ?_ <;> simp_all [grantsL, List.countP_append, schedMeta]
 
 theorem tame_waitMapSem (p : Pool) (m) : Tame p (p.waitMapSem m) := by
   unfold waitMapSem
@@ -40,11 +42,11 @@ theorem locked_false_pos (s : Sem) (v : Nat) (hv : s.value = .fin v) (h : s.lock
 
 /-- appending a fresh task in phase `created` -/
 theorem good_createTask_afterTake {cap : Nat} (p : Pool) (m : Nat) (isMap : Bool)
-    (hph : PhaseOK p) (v : Nat) (hv : p.sem.value = .fin v)
+    (hph : PhaseOK p) (hreg : RegOK p) (v : Nat) (hv : p.sem.value = .fin v)
     (hs : v + (heldL p.tasks + 1) + grantsL p.sem.waiters = cap) : Good cap (p.createTask m isMap) := by
   unfold createTask
   simp only
-  refine ⟨⟨v, by simpa using hv, ?_⟩, ?_⟩
+  refine ⟨⟨v, by simpa using hv, ?_⟩, ?_, hreg.create _ rfl _ rfl rfl rfl rfl rfl⟩
   · simp only [emitRef_sem, emitRef_tasks, modReq_sem, modReq_tasks, heldL, List.countP_append] at *
     simp [newTask]; omega
   · intro i tk' h hn
@@ -63,7 +65,8 @@ theorem good_takeSlotAndCreate {cap : Nat} (p : Pool) (m : Nat) (isMap : Bool) (
   unfold takeSlotAndCreate
   obtain ⟨v, hv, hs⟩ := hg.slot
   have hpos := locked_false_pos p.sem v hv hl
-  refine good_createTask_afterTake _ m isMap (fun i tk h hn => hg.phase i tk h hn) (v - 1) ?_ ?_
+  refine good_createTask_afterTake _ m isMap (fun i tk h hn => hg.phase i tk h hn)
+    (hg.reg.of_eq rfl rfl rfl rfl rfl) (v - 1) ?_ ?_
   · simp [hv, Cap.dec]
   · simp only; omega
 
